@@ -36,6 +36,8 @@ def _prof(name: str) -> Prof:
                 'schem_nt': Prof(symbol=0, svar=False, mu=False, app=False, metavars=2, notations=(P.bot, P.neg, P._and)),
                 'schem_raw': Prof(symbol=0, svar=False, mu=False, app=False, exists=True, metavars=2, raw_inst=True),
                 'inst': Prof(symbol=1, metavars=1),
+                'eq_p': Prof(symbol=0, svar=False, mu=False, exists=False, app=False, metavars=2),
+                'eq_i': Prof(symbol=0, mu=False, exists=False, app=False, metavars=1),
                 'val': Prof(symbol=0, metavars=1, mu=False, app=False),
                 'arg': Prof(symbol=0, svar=False, mu=False, app=False, metavars=1, notations=(P.bot, P.neg)),
             }
@@ -65,7 +67,29 @@ def _check_sound(ctx: Any, pat: Any, instance: Any, seed: dict, res: Any, tag: s
         ctx.check(k in res and O.eq(O.expand(res[k]), O.expand(v)), f'C13.{tag}.seed-not-respected', lambda: f'seed {seed!r} result {res!r}')
 
 
-def h_sound(ctx: Any, n: int, m: int, prof: str, twin: bool = False) -> None:
+def _warm_matches(ctx: Any, pat: Any, instance: Any) -> None:
+    """matching must not depend on earlier matches: the sibling problems are solved first, answers thrown away"""
+    from proof_generation import pattern as P
+
+    probs = [
+        (gens.kind_swap(pat), gens.kind_swap(instance)),
+        (gens.key_swap(pat), gens.key_swap(instance)),
+        (gens.arg_flip(pat), instance),
+        (gens.arg_flip(pat), gens.arg_flip(instance)),
+        (pat, gens.kind_swap(instance)),
+        (gens.kind_swap(pat), instance),
+    ]
+    # which earlier problem comes first matters to a memo that keeps its first answer: every rotation is explored
+    r = ctx.choose(len(probs), 'first earlier problem')
+    for a, b in probs[r:] + probs[:r]:
+        for f in (lambda: P.match_single(a, b), lambda: P.match([(a, b)])):
+            try:
+                f()
+            except Exception:
+                ctx.count('warmup_raised')
+
+
+def h_sound(ctx: Any, n: int, m: int, prof: str, history: bool = False, twin: bool = False) -> None:
     from proof_generation import pattern as P
 
     pat = gens.gen(ctx, n, _prof(prof))
@@ -74,6 +98,8 @@ def h_sound(ctx: Any, n: int, m: int, prof: str, twin: bool = False) -> None:
     if ctx.choose(2, 'seed'):
         seed = {ctx.choose(2, 'seedkey'): gens.gen_upto(ctx, 1, _prof('val'))}
     seed_copy = dict(seed)
+    if history:
+        _warm_matches(ctx, pat, instance)
     res = P.match_single(pat, instance, dict(seed))
     ctx.count('reached')
     ctx.sample({'pattern': repr(pat), 'instance': repr(instance), 'seed': repr(seed)})
@@ -95,14 +121,7 @@ def h_complete(ctx: Any, n: int, m: int, prof: str, history: bool = False, twin:
     if which == 1:
         instance = pat.instantiate(sigma)
     if history:
-        # matching must not depend on earlier matches: the sibling problems (other constructors, rotated notation keys;
-        # same ids) and two mismatching problems are solved first and their answers thrown away
-        for a, b in ((gens.kind_swap(pat), gens.kind_swap(instance)), (gens.key_swap(pat), gens.key_swap(instance)), (pat, gens.kind_swap(instance)), (gens.kind_swap(pat), instance)):
-            for f in (lambda: P.match_single(a, b), lambda: P.match([(a, b)])):
-                try:
-                    f()
-                except Exception:
-                    ctx.count('warmup_raised')
+        _warm_matches(ctx, pat, instance)
     res = P.match_single(pat, instance)
     ctx.count('reached')
     ctx.sample({'pattern': repr(pat), 'sigma': repr(sigma)})
@@ -135,6 +154,32 @@ def h_eqs(ctx: Any, n: int, m: int, twin: bool = False) -> None:
     ctx.check(res is not None, f'C13.match.incomplete[{"empty-solution" if empty else "nonempty"}]', lambda: f'match([({p1!r},{i1!r}),({p2!r},{i2!r})]) is None')
     for p, i in ((p1, i1), (p2, i2)):
         ctx.check(O.eq(O.inst(O.expand(p), {k: O.expand(v) for k, v in res.items()}), O.expand(i)), 'C13.match.unsound', lambda: f'{res!r}')
+
+
+def h_eqs_sound(ctx: Any, n: int, m: int, twin: bool = False) -> None:
+    """arbitrary systems of two equations (solvable or not, sides may be equal, may share metavariables):
+    whatever match() returns solves every equation"""
+    from proof_generation import pattern as P
+
+    pr = _prof('eq_p')
+    p1 = gens.gen_upto(ctx, n, pr)
+    p2 = gens.gen_upto(ctx, n, pr)
+    form = ctx.choose(2, 'first instance')
+    i1 = p1 if form == 0 else gens.gen_upto(ctx, m, _prof('eq_i'))
+    i2 = gens.gen_upto(ctx, m, _prof('eq_i'))
+    order = ctx.choose(2, 'order')
+    eqs = [(p1, i1), (p2, i2)] if order == 0 else [(p2, i2), (p1, i1)]
+    res = P.match(list(eqs))
+    ctx.count('reached')
+    ctx.sample({'equations': [(repr(a), repr(b)) for a, b in eqs]})
+    if twin:
+        ctx.violation('TWIN')
+    if res is None:
+        ctx.count('no_solution')
+        return
+    ctx.count('solved')
+    for p, i in eqs:
+        ctx.check(O.eq(O.inst(O.expand(p), {k: O.expand(v) for k, v in res.items()}), O.expand(i)), 'C13.match.unsound', lambda: f'match({eqs!r}) = {res!r} does not solve ({p!r}, {i!r})')
 
 
 def _notations() -> list:
@@ -257,6 +302,9 @@ def levels(tier: str) -> list[dict]:
         L.append(dict(label=f'complete/partial-instantiate/n={n},val<=1', module=M, fn='h_complete', kwargs=dict(n=n, m=1, prof='schem_raw'), budget_s=bud, required=n <= 4, twin=False))
     for pn, n in ([('schem', 2), ('schem_nt', 2), ('schem_nt', 3), ('schem_raw', 3)] if q else [('schem', 2), ('schem', 3), ('schem_nt', 2), ('schem_nt', 3), ('schem_raw', 3), ('schem_raw', 4)]):
         L.append(dict(label=f'complete-after-sibling-problems/{pn}/n={n},val<=1', module=M, fn='h_complete', kwargs=dict(n=n, m=1, prof=pn, history=True), budget_s=bud, required=True, twin=False))
+    for pn, n in ([('schem_raw', 3), ('schem_nt', 2)] if q else [('schem_raw', 3), ('schem_raw', 4), ('schem_nt', 2), ('schem_nt', 3), ('schem', 2)]):
+        L.append(dict(label=f'sound-after-sibling-problems/{pn}/n={n},inst<=2', module=M, fn='h_sound', kwargs=dict(n=n, m=2, prof=pn, history=True), budget_s=bud, required=True, twin=False))
+    L.append(dict(label=f'equations-sound/2 arbitrary eqs,n<=3,inst<=3', module=M, fn='h_eqs_sound', kwargs=dict(n=3, m=3), budget_s=bud, required=True, twin=False))
     L.append(dict(label='equations/2 eqs,n<=2,val<=1', module=M, fn='h_eqs', kwargs=dict(n=2 if q else 3, m=1), budget_s=bud, required=True))
     for i in range(n_notations()):
         ar = _notations()[i].arity
